@@ -168,8 +168,9 @@ func (fv *FuncVerifier) execStmt(st *State, s ast.Stmt) {
 		hs := map[string]bool{}
 		fv.havocHeaps(st, hs, true)
 	case *ast.SendStmt:
-		fv.unsupported("channel send")
+		fv.eval(st, s.Chan)
 		fv.eval(st, s.Value)
+		fv.chanOp(st, fv.exprText(s.Chan)+" <- "+fv.exprText(s.Value))
 	case *ast.SelectStmt:
 		fv.unsupported("select statement")
 		fv.havocHeaps(st, map[string]bool{}, true)
